@@ -638,7 +638,7 @@ class CPCCA(BaseModelCrossSet):
 
         def _compute_total_variance_numpy(X, Y):
             Cx = X.conj().T @ X / (X.shape[0] - 1)
-            Tinv = _fractional_matrix_power(Cx, -0.5)
+            Tinv = _fractional_matrix_power(Cx, -0.5, solver="full")
             return np.linalg.norm(Tinv @ X.conj().T @ Y / (X.shape[0] - 1)) ** 2
 
         def _compute_residual_variance_numpy(X, Y, Xrec, Yrec):
@@ -646,7 +646,7 @@ class CPCCA(BaseModelCrossSet):
             dY = Y - Yrec
 
             Cx = X.conj().T @ X / (X.shape[0] - 1)
-            Tinv = _fractional_matrix_power(Cx, -0.5)
+            Tinv = _fractional_matrix_power(Cx, -0.5, solver="full")
             return np.linalg.norm(Tinv @ dX.conj().T @ dY / (dX.shape[0] - 1)) ** 2
 
         sample_name_x = "sample_dim_x"
